@@ -50,6 +50,7 @@ def generate(rng, tier="quick"):
                         ref_rate=rng.choice([0.4, 0.55, 0.7]),
                         unresolvable_rate=rng.choice([0.0, 0.0, 0.05]),
                         custom_types=False, custom_keywords=False, formats=False,
+                        odd_ids=False,      # (invalid schemas: WHICH TypeError an unhashable id raises depends on the cache)
                         ndefs=rng.randint(2, 8))
     fault_rate = rng.choice([0.0, 0.3, 0.5, 0.8])
     base = gen_cfg(rng, world, fault_rate)
